@@ -10,6 +10,7 @@ pub const DEF: PropDef = PropDef {
     rule: "constant expressions e (literals of every printable type, arithmetic, stack words, vector/map builders, length/reverse, local word definitions used inside the block, nested #( #) blocks, const definitions and uses) yielding 0-4 values, placed in a hole of a host program: top level, inside [ ], { }, ^{ ^}, inside `: w .. ;` called 0-3 times, inside do-loop / if bodies, inside another meta block; the host pushes values and defines a variable before the hole. \
 Oracles: (1) inlining - the values of e are obtained by running `#( e #)` alone (and, when e has no const, cross-checked against e evaluated as ordinary code), rendered as literals in the order the suite pins (last result first; natural order directly inside another block); host[#( e #)] and host[literals] must agree on result, stack, variables, stdout and on the dictionary except the constants e defines; code length = host[empty hole] + number of results. \
 (2) sealing - blocks that pop more than they push, read/write/create variables (var, let), or define a word used after the block must fail with the underflow / constant-context / unknown-word error and leave stack, variables and dictionary as before. \
+(2b) const chains - a helper word, a constant and 1-3 redefinitions of it at the same level or in nested blocks, with the values known to the generator: after the block the constant holds the last value, a second constant is untouched. \
 (3) compile is inert - compile(host) leaves visible stack, heap and stdout unchanged and compile+run equals eval. \
 Non-trivial = e yields >=1 value and the hole is not at top level, or e contains a definition / nested block / const; distinct = hash of host and e",
     assumptions: &[
@@ -185,13 +186,17 @@ pub fn case(ch: &mut Choices, ctx: &CaseCtx) -> CaseOut {
         return out;
     }
     let _ = base.read_stdout();
-    let mode = ch.weighted(&[10, 3, 3]);
+    let mode = ch.weighted(&[10, 3, 3, 2]);
     if mode == 1 {
         sealing(ch, ctx, &base, npre, &mut out);
         return out;
     }
     if mode == 2 {
         blind(ch, ctx, &pre_src[pre.len()..], &mut out);
+        return out;
+    }
+    if mode == 3 {
+        const_chain(ch, ctx, &mut out);
         return out;
     }
     // ---- hole position -------------------------------------------------------------
@@ -499,6 +504,80 @@ fn blind(ch: &mut Choices, ctx: &CaseCtx, prelude: &str, out: &mut CaseOut) {
         out.class("blind-block-succeeds");
     }
     out.hash = hash_of(&(full.clone(), no));
+    if ctx.want_render || out.fail.is_some() {
+        out.render = Some(full);
+    }
+}
+
+/// constants redefined along a chain of blocks, with the values known to the generator: a helper word defined in the
+/// enclosing block, a constant, and 1-3 redefinitions of it at the same level or in nested blocks (each computed from
+/// the current value); after the block the constant must hold the last value, an untouched second constant its own
+fn const_chain(ch: &mut Choices, ctx: &CaseCtx, out: &mut CaseOut) {
+    let helper = ch.chance(2, 3);
+    let hk = ch.range(1, 9) as i128;
+    let mut n = ch.range(-20, 40) as i128;
+    let m = ch.range(100, 120) as i128;
+    let mut text = String::from("#( ");
+    if helper {
+        text.push_str(&format!(": hk {} + ; ", hk));
+    }
+    let m_first = ch.bool();
+    if m_first {
+        text.push_str(&format!("{} const cm ", m));
+    }
+    text.push_str(&format!("{} const cn ", n));
+    if !m_first {
+        text.push_str(&format!("{} const cm ", m));
+    }
+    let steps = 1 + ch.below(3);
+    let mut nested_any = false;
+    for _ in 0..steps {
+        let (expr, val) = match ch.weighted(&[3, if helper { 3 } else { 0 }, 1]) {
+            0 => {
+                let k = ch.range(1, 9) as i128;
+                (format!("cn {} *", k), n * k)
+            }
+            1 => ("cn hk".to_string(), n + hk),
+            _ => {
+                let k = ch.range(-5, 5) as i128;
+                (format!("{}", k), k)
+            }
+        };
+        n = val;
+        if ch.bool() {
+            nested_any = true;
+            text.push_str(&format!("#( {} const cn #) ", expr));
+        } else {
+            text.push_str(&format!("{} const cn ", expr));
+        }
+    }
+    text.push_str("#) cn cm");
+    let full = match ch.below(3) {
+        0 => text.clone(),
+        1 => format!(": cf {} ; cf", text),
+        _ => format!("[ {} ]", text),
+    };
+    let compile_style = ch.bool();
+    let mut xs = xs::fresh();
+    xs.set_insn_limit(Some(100_000)).unwrap();
+    let r = guard(|| if compile_style { xs.compile(&full).and_then(|_| xs.run()) } else { xs.eval(&full) });
+    let want = if full.starts_with('[') { format!("[ {} {} ]", n, m) } else { format!("{} | {}", n, m) };
+    match r {
+        Err(pm) => out.fail(format!("panic: {}", pm), full.clone()),
+        Ok(Err(e)) => out.fail("const-chain: a well-formed chain of constant definitions failed", format!("{} -> {}", full, xs::render_err(&e))),
+        Ok(Ok(())) => {
+            let got = xs::render_stack(&xs);
+            if got != want {
+                out.fail("const-chain: a constant does not hold its latest definition after the block", format!("{}\nstack [{}] expected [{}]", full, got, want));
+            }
+        }
+    }
+    out.nontrivial = true;
+    out.class("const-chain");
+    if nested_any {
+        out.class("const-redefined-in-nested-block");
+    }
+    out.hash = hash_of(&(full.clone(), compile_style));
     if ctx.want_render || out.fail.is_some() {
         out.render = Some(full);
     }
